@@ -1,1 +1,80 @@
-fn main() { unimplemented!() }
+//! C03 (allocator safety, OOM) and C04 (memory held from the OS is bounded): the real
+//! `Dlmalloc` as a local object; its mmap/mremap/munmap are answered by a model kernel
+//! through the sysx seam (controlled placement inside a reserved arena, returned memory
+//! becomes inaccessible).  Exhaustive enumeration of bounded histories; no sampling.
+
+mod exec;
+mod kernel;
+mod lasso;
+mod phases;
+
+use common::*;
+
+fn main() {
+    let args = parse_args();
+    install_panic_hook();
+    if let Some(p) = &args.replay {
+        let v = read_replay(p);
+        let mut r = Report::new();
+        replay(&v, &mut r, args.thorough);
+        for v in r.violations.values() {
+            println!("VIOLATED {}: {}", v.key, v.desc);
+        }
+        println!("{}", serde_json::to_string_pretty(&r.to_json()).unwrap());
+        std::process::exit(if r.violations.is_empty() { 0 } else { 1 });
+    }
+    let phase = args.phase.clone().unwrap_or_else(|| "hist".into());
+    let t0 = now();
+    let mut r = match phase.as_str() {
+        "hist" => phases::hist(&args),
+        "boundary" => phases::boundary(&args),
+        "placement" => phases::placement(&args),
+        "oom" => phases::oom(&args),
+        "lasso" => lasso::lasso(&args),
+        _ => panic!("unknown phase {phase}"),
+    };
+    r.note(format!("phase {phase} wall time {:.1} s", t0.elapsed().as_secs_f64()));
+    r.write(&args.out);
+}
+
+/// Re-execute one stored case in a forked child (so that a fault is reported, not fatal to the replayer).
+fn replay(v: &serde_json::Value, r: &mut Report, thorough: bool) {
+    let v = v.clone();
+    let items = vec![isolated("replay", move || {
+        let mut r = Report::new();
+        if v["phase"].as_str() == Some("lasso") {
+            let wl = lasso::Workload::from_json(&v);
+            println!("replaying lasso workload {}", wl.to_json());
+            let mut w = exec::World::new(0);
+            let cap = lasso::round_cap(thorough);
+            if let Some(res) = lasso::run_workload(&mut w, &wl, cap, &mut r, true) {
+                println!(
+                    "rounds {} states {} recurrence {:?} max footprint {} final {} bound {} peak live {}",
+                    res.rounds,
+                    res.states,
+                    res.recurrence,
+                    res.max_footprint,
+                    res.final_footprint,
+                    wl.bound(),
+                    wl.peak_live()
+                );
+                lasso::judge(&wl, &res, cap, &mut r);
+            }
+        } else {
+            let c = exec::Case::from_json(&v);
+            println!("replaying {}", c.to_json());
+            // dense patterns in both tiers unless the case is huge: a replay is a single case
+            let mut w = exec::World::new(phases::dense_limit(true));
+            let info = exec::run_case(&mut w, &c, &mut r, true);
+            println!("completed={} mmaps={} modelled calls={:?} peak footprint={}", info.completed, info.mmaps, info.kinds, info.peak_footprint);
+        }
+        r
+    })];
+    let out = format!("/tmp/h-alloc-replay-{}", std::process::id());
+    let rr = run_isolated(items, &out, if v_is_lasso(r) { "C04" } else { "C03" });
+    r.merge(rr);
+}
+
+fn v_is_lasso(_r: &Report) -> bool {
+    false
+}
